@@ -57,13 +57,6 @@ impl<'a> Dev for ZipFileReader<'a> {
 impl<'a> Read for ZipFileReader<'a> {
 //@use zipfilereader_read nobody
 }
-// the bounded, undecoded view of the archive an open entry reads its raw bytes from (what get_raw_reader installs)
-pub open spec fn zf_raw_take<'a>(z: ZipFile<'a>) -> Take<DynRead<'a>> {
-    match z.reader {
-        ZipFileReader::Raw(t) => t,
-        _ => crypto_take(z.crypto_reader.unwrap()),
-    }
-}
 // the bytes a raw copy has to transfer: the next `limit` bytes of the source device, or what is left of it if the source
 // ends early (a truncated archive)
 pub open spec fn take_avail<'a>(t: Take<DynRead<'a>>) -> int {
